@@ -31,6 +31,7 @@ type c01ctx struct {
 	cred *world.Cred
 	ctx  *big.Int
 	non  *big.Int
+	base *gabi.ProofD // an honest proof of cred under (ctx, non): earlier content of reused objects
 }
 
 // c01Post evaluates the acceptance postconditions on an accepted proof.
@@ -91,6 +92,23 @@ func (x *c01ctx) try(family, desc string, d *gabi.ProofD) bool {
 	}
 	if ok2 {
 		c01Post(r, x.cred, d2, family, desc+" via ProofList.Verify", x.ctx, x.non)
+	}
+	// object history: the candidate placed into an object that has verified the honest proof before
+	if x.base != nil && family != "A-honest" {
+		w := cloneD(x.base)
+		if okw, _, _ := verifyD(pk, w, x.ctx, x.non, false); okw {
+			src := cloneD(d)
+			w.C, w.A, w.EResponse, w.VResponse, w.AResponses, w.ADisclosed, w.NonRevocationProof, w.RangeProofs = src.C, src.A, src.EResponse, src.VResponse, src.AResponses, src.ADisclosed, src.NonRevocationProof, src.RangeProofs
+			ok3, pv3, _ := verifyD(pk, w, x.ctx, x.non, false)
+			r.Eval(family+"/reused-object", outcome(ok3, pv3))
+			if ok3 {
+				c01Post(r, x.cred, w, family, desc+" in an object that verified the honest proof before", x.ctx, x.non)
+				if !ok {
+					r.Violation("C01/verdict-depends-on-object-history", "a proof rejected in a fresh object is accepted in an object that verified another proof before ("+family+": "+desc+")",
+						map[string]any{"family": family, "desc": desc, "cred": dumpCred(x.cred), "proof": dumpD(d), "earlier": dumpD(x.base)})
+				}
+			}
+		}
 	}
 	return ok || ok2
 }
@@ -193,6 +211,7 @@ func c01Set(x *c01ctx, rng *rand.Rand, D []int) {
 		r.Sample(map[string]any{"honest_rejected": desc})
 		return
 	}
+	x.base = honest
 	if r.Evals()%500 < 2 {
 		r.Sample(map[string]any{"family": "A-honest", "key": x.key.Name, "ledger_bits": bitlens(cred.Ledger), "disclosed": D})
 	}
